@@ -310,3 +310,17 @@ def check_field_writers(F, res, rule, with_fuel=True):
     lit = [(f.path, s["ln"]) for f, b, s in EF.constructions(F, PA, None, "syntax::")]
     res.ob(rule, "construct/Parser", "the Parser struct is built only in parse_module",
            [a[0] for a in lit] == ["syntax::parser::parse_module"], where="crates/syntax/src/parser.rs", how="sites: %s" % lit)
+
+
+def lexer_callbacks(F):
+    """hand-written functions the logos-generated lexer calls back into (`#[regex(.., lex_string)]`). The generated lexer is entered
+    through a trait method of an external crate, which the call graph cannot follow from parse_module: its callbacks are named
+    as extra roots wherever reachability from the parser or from the queries is computed."""
+    cg = F.callgraph()
+    gen = [p for p in F.fns if p.startswith("<syntax::kind::SyntaxKind as logos::Logos>::lex")]
+    out = set()
+    for g in gen:
+        for c in cg.get(g, ()):
+            if c.startswith("syntax::") and c not in gen and c in F.fns and F.fns[c].blocks and not (F.fns[c].d.get("span") or {}).get("exp"):
+                out.add(c)
+    return sorted(out)
